@@ -95,7 +95,8 @@ func (s *simplifier) simplifyWord(wps []WordPart) []WordPart {
 parts:
 	for i, wp := range wps {
 		dq, _ := wp.(*DblQuoted)
-		if dq == nil || len(dq.Parts) != 1 {
+		if dq == nil || dq.Dollar || len(dq.Parts) != 1 {
+			// $"..." must stay: in $'...' the kept backslashes would start ANSI-C escapes.
 			break
 		}
 		lit, _ := dq.Parts[0].(*Lit)
